@@ -495,6 +495,92 @@ KNOWN_SIGNATURES = {
 }
 
 
+def callback_scenarios():
+    """Deferred deletion with callbacks that act on the world (hand-written expectations
+    from C05/C01/C02): linked components whose on_remove deletes the partner, components whose
+    on_remove fails once."""
+    import desper
+    out = []
+
+    @desper.event_handler('on_remove')
+    class Link:
+        def __init__(self, partner):
+            self.partner, self.removed = partner, 0
+
+        def on_remove(self, entity, world):
+            self.removed += 1
+            try:
+                world.delete_entity(self.partner, immediate=True)
+            except KeyError:
+                pass
+
+    class Plain:
+        pass
+    for n_links, extra in ((2, False), (3, False), (2, True)):
+        w = desper.World()
+        names = ['e%d' % i for i in range(n_links)]
+        links = [Link(names[(i + 1) % n_links]) for i in range(n_links)]
+        for nm, lk in zip(names, links):
+            w.create_entity(*([lk, Plain()] if extra else [lk]), entity_id=nm)
+        bystander = w.create_entity(Plain())
+        for nm in names:
+            w.delete_entity(nm)
+        for frame in range(3):
+            try:
+                w.process(1)
+            except Exception as e:      # noqa
+                out.append(('C05', 'process() raised %r in frame %d although every deleted entity existed when '
+                                   'delete_entity was called (linked components delete their partner in on_remove)'
+                            % (e, frame), 'process-keyerror-linked'))
+                break
+        else:
+            if any(w.entity_exists(nm) or w.get_components(nm) if nm in w._entities else False for nm in names):
+                out.append(('C05', 'a deleted entity still exists after three frames', 'linked-survives'))
+            if [lk.removed for lk in links] != [1] * n_links:
+                out.append(('C02', 'on_remove delivered %r times to the linked components'
+                            % [lk.removed for lk in links], 'linked-on_remove-count'))
+            if not w.entity_exists(bystander):
+                out.append(('C01', 'an unrelated entity disappeared', 'linked-bystander'))
+        if out:
+            return out
+
+    # on_remove failing once per component: the failed frame does not cancel the other deletions
+    @desper.event_handler('on_remove')
+    class Fragile:
+        def __init__(self):
+            self.calls = 0
+
+        def on_remove(self, entity, world):
+            self.calls += 1
+            if self.calls == 1:
+                raise RuntimeError('on_remove failed for entity %r' % (entity,))
+    w = desper.World()
+    ents = [w.create_entity(Fragile()) for _ in range(3)]
+    keep = w.create_entity(Plain())
+    for e in ents:
+        w.delete_entity(e)
+    failures = 0
+    for frame in range(6):
+        try:
+            w.process(1)
+        except RuntimeError:
+            failures += 1
+        except Exception as e:      # noqa
+            out.append(('C05', 'process() raised %r' % (e,), 'process-other-error'))
+            return out
+        listed = [e for e in ents if e in w.entities or w.entity_exists(e)]
+        if listed:
+            out.append(('C05', 'after a frame that failed in an on_remove callback the entities %r, whose '
+                               'deferred deletion was still pending, exist again (entities=%r)'
+                        % (listed, w.entities), 'marks-lost-on-failure'))
+            return out
+    if any(e in w._entities for e in ents):
+        out.append(('C05', 'entities scheduled for deletion survive six frames', 'never-deleted'))
+    if not w.entity_exists(keep):
+        out.append(('C01', 'an unrelated entity disappeared', 'fragile-bystander'))
+    return out
+
+
 def main():
     req = json.loads(sys.stdin.read())
     pid = req.get('property')
@@ -522,6 +608,15 @@ def main():
         [('create', ['H'], 7), ('create', ['H#2'], 7), ('ping',)],
         [('create', ['H', 'H#2'], None), ('ping',)],
     ]
+    if pid in ('C01', 'C02', 'C05'):
+        for v in callback_scenarios():
+            sig = '%s:%s' % (v[0], v[2])
+            if sig in skip or (want and sig != want):
+                continue
+            print(json.dumps({'status': 'reproduced', 'history': {'scenario': 'callback_scenarios'},
+                              'observed': v[1], 'violates': v[0], 'found_by': 'native scenario',
+                              'signature': sig}, default=str))
+            return
     for hist in itertools.chain(targeted, families(pid, req.get('tier', 'quick'))):
         tried += 1
         r = run_history(hist)
